@@ -33,7 +33,7 @@ class Acc:
         if tol == 0:
             r = 0.0 if err == 0 else float("inf")
         else:
-            r = float(err / tol)
+            r = fl(err / tol)
             if r != r:
                 r = float("inf")
         if name not in self.ratio or r > self.ratio[name]:
@@ -41,6 +41,14 @@ class Acc:
 
     def count(self, k, n=1):
         self.counts[k] = self.counts.get(k, 0) + n
+
+
+def fl(v):
+    """float(v) for Fractions / Decimals of any size: +-inf instead of OverflowError"""
+    try:
+        return float(v)
+    except OverflowError:
+        return float("inf") if v > 0 else float("-inf")
 
 
 MAXF = {"f64": F(2) ** 1020, "f32": F(2) ** 124}
@@ -125,9 +133,9 @@ def check_interp1(ev, acc):
                 if err > tol:
                     if nviol < MAX_VIOL_PER_EVENT:
                         viol(acc, ev, f"{prop}:line",
-                             f"q={qq!r} lane {l}: got {r!r}, exact line gives {float(exact)!r}, "
-                             f"|err|={float(err):.3e} > tol={float(tol):.3e}",
-                             {"q": qq, "lane": l, "got": r, "exact": float(exact)})
+                             f"q={qq!r} lane {l}: got {r!r}, exact line gives {fl(exact)!r}, "
+                             f"|err|={fl(err):.3e} > tol={fl(tol):.3e}",
+                             {"q": qq, "lane": l, "got": r, "exact": fl(exact)})
                         nviol += 1
         return
     if kind == "spline":
@@ -176,8 +184,8 @@ def check_interp1(ev, acc):
                 acc.ratio_upd("poly-linear", err, tol)
                 if err > tol and nviol < MAX_VIOL_PER_EVENT:
                     viol(acc, ev, f"{prop}:poly",
-                         f"q={qq!r} lane {l}: got {r!r}, polynomial gives {float(exact)!r}, "
-                         f"|err|={float(err):.3e} > tol={float(tol):.3e}")
+                         f"q={qq!r} lane {l}: got {r!r}, polynomial gives {fl(exact)!r}, "
+                         f"|err|={fl(err):.3e} > tol={fl(tol):.3e}")
                     nviol += 1
         return
 
@@ -249,8 +257,8 @@ def check_spline_values(ev, acc, prop, x, xf, yf, M, bc, q, qf, lane_res, tol0, 
             m_max = max(abs(m) for m in M)
             s3_max = max(abs(M[j + 1] - M[j]) / (xf[j + 1] - xf[j]) for j in range(len(xf) - 1))
             extra_tol = (2 * L + m_max * delta + s3_max * delta * delta) * delta
-            i = X.bracket(x, float(w)) if w != xf[-1] else len(x) - 2
-            # float(w) may round across a knot: fix the bracket exactly
+            i = X.bracket(x, fl(w)) if w != xf[-1] else len(x) - 2
+            # fl(w) may round across a knot: fix the bracket exactly
             while i > 0 and w < xf[i]:
                 i -= 1
             while i < len(xf) - 2 and w >= xf[i + 1]:
@@ -278,8 +286,8 @@ def check_spline_values(ev, acc, prop, x, xf, yf, M, bc, q, qf, lane_res, tol0, 
             if nv + nviol < MAX_VIOL_PER_EVENT:
                 viol(acc, ev, f"{prop}:{name}",
                      f"q={qq!r} lane {l} bc={bc_name(bc)}: got {r!r}, exact spline gives "
-                     f"{float(exact)!r}, |err|={float(err):.3e} > tol={float(tol):.3e}",
-                     {"q": qq, "lane": l, "got": r, "exact": float(exact)})
+                     f"{fl(exact)!r}, |err|={fl(err):.3e} > tol={fl(tol):.3e}",
+                     {"q": qq, "lane": l, "got": r, "exact": fl(exact)})
                 nviol += 1
     return nviol
 
@@ -307,7 +315,7 @@ def check_knots(ev, acc, prop, x, yf, q, lane_res, tol0, l, nv):
             bad = err > tol0
         if bad and nv + nviol < MAX_VIOL_PER_EVENT:
             viol(acc, ev, f"{prop}:knot-not-reproduced",
-                 f"lane {l}: S(x[{i}]={qq!r}) = {r!r}, data value is {float(yf[i])!r}")
+                 f"lane {l}: S(x[{i}]={qq!r}) = {r!r}, data value is {fl(yf[i])!r}")
             nviol += 1
     return nviol
 
@@ -364,9 +372,9 @@ def check_c2(ev, acc, prop, x, xf, q, qf, lane_res, tol0, l, nv):
             acc.ratio_upd("one-cubic-per-interval", err, tol)
             if err > tol and nv + nviol < MAX_VIOL_PER_EVENT:
                 viol(acc, ev, f"{prop}:not-one-cubic",
-                     f"lane {l} interval {i}: sample at {float(z)!r} is {float(val)!r}, the cubic "
-                     f"through 4 other samples of the interval gives {float(pred)!r} "
-                     f"(|err|={float(err):.3e} > {float(tol):.3e})")
+                     f"lane {l} interval {i}: sample at {fl(z)!r} is {fl(val)!r}, the cubic "
+                     f"through 4 other samples of the interval gives {fl(pred)!r} "
+                     f"(|err|={fl(err):.3e} > {fl(tol):.3e})")
                 nviol += 1
     for i in range(1, len(xf) - 1):
         if fits[i - 1] is None or fits[i] is None:
@@ -384,8 +392,8 @@ def check_c2(ev, acc, prop, x, xf, q, qf, lane_res, tol0, l, nv):
             acc.ratio_upd(name, err, tol)
             if err > tol and nv + nviol < MAX_VIOL_PER_EVENT:
                 viol(acc, ev, f"{prop}:{name}",
-                     f"lane {l} knot {i} (x={float(z)!r}): one-sided derivatives of order {d} are "
-                     f"{float(dl)!r} and {float(dr)!r} (|jump|={float(err):.3e} > {float(tol):.3e})")
+                     f"lane {l} knot {i} (x={fl(z)!r}): one-sided derivatives of order {d} are "
+                     f"{fl(dl)!r} and {fl(dr)!r} (|jump|={fl(err):.3e} > {fl(tol):.3e})")
                 nviol += 1
     return nviol
 
@@ -414,7 +422,7 @@ def check_bc(ev, acc, prop, x, xf, q, qf, lane_res, tol0, bc, l, nv):
         acc.ratio_upd("bc-" + name, err, tol)
         if err > tol and nv + nviol < MAX_VIOL_PER_EVENT:
             viol(acc, ev, f"{prop}:bc-{name}",
-                 f"lane {l}: {what} (|residual|={float(err):.3e} > {float(tol):.3e})")
+                 f"lane {l}: {what} (|residual|={fl(err):.3e} > {fl(tol):.3e})")
             nviol += 1
 
     first, last = fit_of(0), fit_of(n - 2)
@@ -424,7 +432,7 @@ def check_bc(ev, acc, prop, x, xf, q, qf, lane_res, tol0, bc, l, nv):
                 a, wa = deriv(first, xf[0], d)
                 b, wb = deriv(last, xf[-1], d)
                 report(f"periodic-d{d}", abs(a - b), tol0 * (wa + wb),
-                       f"derivative {d} at the two ends: {float(a)!r} vs {float(b)!r}")
+                       f"derivative {d} at the two ends: {fl(a)!r} vs {fl(b)!r}")
         return nviol
     sides = ((bc[0], 0, first, 1, "left"), (bc[1], n - 2, last, n - 2, "right"))
     both_nak_3 = (n == 3 and bc[0][0] == "NotAKnot" and bc[1][0] == "NotAKnot")
@@ -437,17 +445,17 @@ def check_bc(ev, acc, prop, x, xf, q, qf, lane_res, tol0, bc, l, nv):
             target = z * 0 if kind == "Natural" else val
             d, w = deriv(fit, z, 2)
             report(f"{kind}-{side}", abs(d - target), tol0 * w,
-                   f"S''({side} end)={float(d)!r}, required {float(target)!r}")
+                   f"S''({side} end)={fl(d)!r}, required {fl(target)!r}")
         elif kind in ("Clamped", "FirstDeriv"):
             target = z * 0 if kind == "Clamped" else val
             d, w = deriv(fit, z, 1)
             report(f"{kind}-{side}", abs(d - target), tol0 * w,
-                   f"S'({side} end)={float(d)!r}, required {float(target)!r}")
+                   f"S'({side} end)={fl(d)!r}, required {fl(target)!r}")
         elif kind == "NotAKnot":
             if both_nak_3:
                 d, w = deriv(fit, z, 3)
                 report(f"NotAKnot3-{side}", abs(d), tol0 * w,
-                       f"S''' on the {side} interval is {float(d)!r}, parabola requires 0")
+                       f"S''' on the {side} interval is {fl(d)!r}, parabola requires 0")
                 continue
             other_iv = 1 if side == "left" else n - 3
             if other_iv < 0 or other_iv > n - 2:
@@ -459,7 +467,7 @@ def check_bc(ev, acc, prop, x, xf, q, qf, lane_res, tol0, bc, l, nv):
             d1, w1 = deriv(fit, z, 3)
             d2, w2 = deriv(other, z, 3)
             report(f"NotAKnot-{side}", abs(d1 - d2), tol0 * (w1 + w2),
-                   f"S''' jumps across the {side} interior knot: {float(d1)!r} vs {float(d2)!r}")
+                   f"S''' jumps across the {side} interior knot: {fl(d1)!r} vs {fl(d2)!r}")
     return nviol
 
 
@@ -484,8 +492,8 @@ def check_poly(ev, acc, prop, x, xf, q, qf, lane_res, tol0, l, nv):
         acc.ratio_upd("poly-spline", err, tol)
         if err > tol and nv + nviol < MAX_VIOL_PER_EVENT:
             viol(acc, ev, f"{prop}:poly",
-                 f"q={qq!r} lane {l}: got {r!r}, generating polynomial gives {float(exact)!r}, "
-                 f"|err|={float(err):.3e} > tol={float(tol):.3e}")
+                 f"q={qq!r} lane {l}: got {r!r}, generating polynomial gives {fl(exact)!r}, "
+                 f"|err|={fl(err):.3e} > tol={fl(tol):.3e}")
             nviol += 1
     return nviol
 
@@ -541,8 +549,8 @@ def check_interp2(ev, acc):
                 if nviol < MAX_VIOL_PER_EVENT:
                     viol(acc, ev, f"{prop}:{name}",
                          f"q=({qx[k]!r},{qy[k]!r}) lane {l}: got {r!r}, exact gives "
-                         f"{float(exact)!r}, |err|={float(err):.3e} > tol={float(tol):.3e}",
-                         {"qx": qx[k], "qy": qy[k], "lane": l, "got": r, "exact": float(exact)})
+                         f"{fl(exact)!r}, |err|={fl(err):.3e} > tol={fl(tol):.3e}",
+                         {"qx": qx[k], "qy": qy[k], "lane": l, "got": r, "exact": fl(exact)})
                     nviol += 1
 
 
